@@ -56,6 +56,18 @@ pub fn main(a: &vcommon::Args) {
                             json!({"c": "dial", "peer": r.gen_range(1..=2), "cond": "Always", "addrs": (0..na).map(|_| r.gen_range(1..=3)).collect::<Vec<i64>>(),
                                 "beh_addrs": beh, "extend": r.gen_bool(0.7), "plan": plan})
                         }
+                        28..=33 => {
+                            let mut beh = vec![];
+                            for _ in 0..3 {
+                                let l: Vec<i64> = (0..r.gen_range(0..=2)).map(|_| [2, 3, 4, 5][r.gen_range(0..4)]).collect();
+                                beh.push(json!(l));
+                            }
+                            let mut plan = vec![];
+                            for _ in 0..3 {
+                                plan.push(json!([r.gen_bool(deny_p), false]));
+                            }
+                            json!({"c": "hpoc", "peer": if r.gen_bool(0.5) { -1 } else { r.gen_range(1..=2) }, "beh_addrs": beh, "plan": plan})
+                        }
                         12..=19 if nconn > 0 => json!({"c": "hEmit", "id": r.gen_range(1..=nconn), "field": r.gen_range(0..3)}),
                         20..=27 if nconn > 0 => json!({"c": "emitF", "id": r.gen_range(1..=nconn), "field": r.gen_range(0..3), "peer": r.gen_range(1..=2)}),
                         _ => gen_cmd(&mut r, &run, 6, deny_p),
